@@ -16,8 +16,10 @@ momentum refreshed from exp(-K) leaves exp(-H) invariant) this gives invariance 
                           weights add up (logweight == log(w_old + w_new)), the merged tree spans the outer end points, turning is
                           the U-turn criterion of those end points, depth/divergence/acceptance bookkeeping; for an uninterpreted
                           potential.  Lemma L-MULTINOMIAL turns these into 'candidate ~ e^-H over the trajectory'.
-Not decided by any contract: the control flow of generate_nuts_tree / iterative_build_tree (which sub-trees are built and checked
-for U-turns in which order) and 'long chains reproduce the moments' (whole-history probabilistic statements).
+  generate_nuts_tree      (bounded, native) against an independent reference of the doubling procedure: retained trajectory (end points),
+                          depth, logweight == log sum e^-H over it, turning flag, candidate is a point of it -- the control flow of
+                          iterative_build_tree's aligned sub-tree U-turn checks included
+Not decided: 'long chains reproduce the moments' (whole-history probabilistic statement).
 """
 import numpy as np
 import sympy as sp
@@ -40,14 +42,16 @@ META = dict(
          "draw is below min(1, exp(H_old - H_new)), rejecting on NaN; the HMC/NUTS sampler classes refresh the momentum with the "
          "covariance that matches their kinetic energy, whose gradient is the one the integrator uses. NUTS: merging two trees / adding a "
          "point selects the new candidate with probability w_new / (w_old + w_new) (biased: min(1, w_new / w_old)), weights add up, the "
-         "merged tree spans the outer ends and its turning flag is the U-turn criterion of those ends. The tree-building control flow "
-         "and the chain-moment clause are not decided (see note).",
+         "merged tree spans the outer ends and its turning flag is the U-turn criterion of those ends. On generated potentials, step "
+         "sizes, depths and keys (bounded) the tree returned by generate_nuts_tree is the one of the doubling procedure with aligned "
+         "sub-tree U-turn checks. The chain-moment clause is not decided (see note).",
     note="Universal in potential, step size, masses, positions and momenta; bounded in dimension (n <= 2, two leaves) and in the number of "
          "leapfrog steps (<= 3). Invariance of the HMC transition then follows from lemma L-METRO (stated, standard); the NUTS helper "
          "contracts give 'candidate ~ e^-H over the trajectory' with lemma L-MULTINOMIAL (stated). The control flow of "
-         "generate_nuts_tree / iterative_build_tree (order of doubling and sub-tree U-turn checks) and the statistical clause 'long "
-         "chains reproduce the moments' have no per-call contract and are not covered.",
-    explanation="level 'other': symbolic identities on jaxprs for the integrator, the acceptance rule and the NUTS merge steps; tree control flow and chain statistics not covered",
+         "generate_nuts_tree / iterative_build_tree is compared natively with an independent reference (bounded stand-in: quadratic and "
+         "quartic potentials, dimension <= 3, depth <= 5). The statistical clause 'long chains reproduce the moments' has no per-call "
+         "contract and is not covered.",
+    explanation="level 'other': symbolic identities on jaxprs for the integrator, the acceptance rule and the NUTS merge steps; tree control flow bounded; chain statistics not covered",
 )
 
 
@@ -413,4 +417,97 @@ def _same_truth(a, b, seed, n=200):
     return len(seen) == 2          # both truth values were exercised
 
 
-SECTIONS = [sec_leapfrog, sec_acc_rej, sec_acc_rej_native, sec_sampler, sec_nuts_helpers]
+def sec_nuts_tree_native(chk):
+    """bounded: generate_nuts_tree against an independent recursive reference of the doubling procedure (deterministic parts)"""
+    import jax
+    jax.config.update("jax_enable_x64", True)
+    import jax.numpy as jnp
+    from functools import partial
+    from nifty.re import hmc
+    chk.under_contract(hmc.generate_nuts_tree)
+    chk.under_contract(hmc.iterative_build_tree)
+    rng = np.random.default_rng(3200 + chk.seed)
+    fails, cases, stops = [], 0, dict(turn_sub=0, turn_total=0, depth=0)
+
+    def uturn(l, r):
+        return (np.dot(r[1], r[0] - l[0]) < 0) and (np.dot(l[1], l[0] - r[0]) < 0)
+    pots = [("quadratic", lambda c: (lambda q: 0.5 * jnp.sum(c * q * q))), ("quartic", lambda c: (lambda q: jnp.sum(c * q ** 4) + 0.1 * jnp.sum(q * q)))]
+    reps = 6 if chk.tier == "quick" else 30
+    for pname, mk in pots:
+        for dim in (1, 2, 3):
+            for rep in range(reps):
+                cases += 1
+                c = jnp.asarray(rng.uniform(0.3, 2.0, size=dim))
+                V = mk(c)
+                gV = jax.grad(V)
+                im = jnp.asarray(rng.uniform(0.5, 2.0, size=dim))
+                kin = lambda inv_m, p: 0.5 * jnp.sum(inv_m * p * p)      # noqa: E731
+                stepper = partial(hmc.leapfrog_step, gV, lambda inv_m, p: inv_m * p)
+                eps = float(rng.uniform(0.05, 0.7))
+                maxd = int(rng.integers(1, 6))
+                q0, p0 = jnp.asarray(rng.normal(size=dim)), jnp.asarray(rng.normal(size=dim))
+                seed = int(rng.integers(0, 2 ** 31 - 1))
+                key = jax.random.PRNGKey(seed)
+                tree = hmc.generate_nuts_tree(hmc.QP(q0, p0), key, eps, maxd, stepper, V, kin, im, bias_transition=bool(rep % 2))
+                # ---- reference: trajectory as a dict time -> (q, p); directions drawn as the driver documents (one Bernoulli(1/2) per doubling)
+                H = lambda qp: float(V(jnp.asarray(qp[0])) + kin(im, jnp.asarray(qp[1])))      # noqa: E731
+
+                def step(qp, direction):
+                    out = stepper(direction * eps, im, hmc.QP(jnp.asarray(qp[0]), jnp.asarray(qp[1])))
+                    return (np.asarray(out.position), np.asarray(out.momentum))
+                traj = {0: (np.asarray(q0), np.asarray(p0))}
+                lo = hi = 0
+                depth, k, stop_reason = 0, key, None
+                while depth <= maxd:
+                    k, k_dir, _, _ = jax.random.split(k, 4)
+                    right = bool(jax.random.bernoulli(k_dir, 0.5))
+                    npts = 2 ** depth
+                    new, cur = [], (hi if right else lo)
+                    sub_turn = False
+                    for n in range(npts):
+                        nxt = cur + (1 if right else -1)
+                        traj[nxt] = step(traj[cur], 1. if right else -1.)
+                        new.append(nxt)
+                        cur = nxt
+                        if n % 2 == 1:      # right end of aligned sub-trees of sizes 2, 4, ..: check each against its other end
+                            size = 2
+                            while (n + 1) % size == 0 and size <= n + 1:
+                                if uturn(traj[new[n - size + 1]], traj[new[n]]):
+                                    sub_turn = True
+                                size *= 2
+                            if sub_turn:
+                                break
+                    if sub_turn:
+                        for t in new:
+                            traj.pop(t)
+                        stop_reason = "turn_sub"
+                        break
+                    lo, hi = (lo, hi + npts) if right else (lo - npts, hi)
+                    depth += 1
+                    if uturn(traj[lo], traj[hi]):
+                        stop_reason = "turn_total"
+                        break
+                stops[stop_reason or "depth"] += 1
+                lab = f"{pname} potential, dimension {dim}, step {eps:.3f}, max depth {maxd}, key {seed}"
+                got_l, got_r = (np.asarray(tree.left.position), np.asarray(tree.left.momentum)), (np.asarray(tree.right.position), np.asarray(tree.right.momentum))
+                if not (np.allclose(got_l[0], traj[lo][0], rtol=1e-9, atol=1e-11) and np.allclose(got_l[1], traj[lo][1], rtol=1e-9, atol=1e-11)
+                        and np.allclose(got_r[0], traj[hi][0], rtol=1e-9, atol=1e-11) and np.allclose(got_r[1], traj[hi][1], rtol=1e-9, atol=1e-11)):
+                    fails.append(dict(case=f"{lab}: the end points of the returned tree are not those of the doubling procedure (reference stops by {stop_reason or 'depth'} at depth {depth})", detail=""))
+                    continue
+                if int(tree.depth) != depth:
+                    fails.append(dict(case=f"{lab}: depth {int(tree.depth)} != {depth}", detail=""))
+                lw = np.logaddexp.reduce([-H(traj[t]) for t in range(lo, hi + 1)])
+                if not np.isclose(float(tree.logweight), lw, rtol=1e-9, atol=1e-10):
+                    fails.append(dict(case=f"{lab}: logweight {float(tree.logweight)!r} != log sum exp(-H) over the trajectory {lw!r}", detail=""))
+                cq = np.asarray(tree.proposal_candidate.position)
+                if not any(np.allclose(cq, traj[t][0], rtol=1e-9, atol=1e-11) for t in range(lo, hi + 1)):
+                    fails.append(dict(case=f"{lab}: the proposal candidate is not a point of the retained trajectory", detail=""))
+                if depth > 0 and bool(tree.turning) != uturn(traj[lo], traj[hi]):
+                    fails.append(dict(case=f"{lab}: turning flag {bool(tree.turning)} != U-turn criterion of the end points", detail=""))
+    chk.note(f"nuts_tree_native: reference stop reasons {stops}")
+    nontriv = cases if min(stops["turn_sub"], stops["turn_total"]) > 0 else 0
+    chk.bounded("generate_nuts_tree against an independent reference of the doubling procedure: retained trajectory, depth, weights, turning, candidate membership",
+                bound=f"{cases} (potential, dimension, step size, max depth <= 5, key) cases; stop reasons {stops}", cases=cases, nontrivial=nontriv, failures=fails, kind="B-runtime")
+
+
+SECTIONS = [sec_leapfrog, sec_acc_rej, sec_acc_rej_native, sec_sampler, sec_nuts_helpers, sec_nuts_tree_native]
